@@ -56,7 +56,7 @@ inductive Res (α : Type)
   | ok (a : α)
   | err (k : ErrKind)
   | panic (site : String)
-deriving Repr
+deriving Repr, DecidableEq
 
 def Res.isPanic {α} : Res α → Bool
   | .panic _ => true
